@@ -246,7 +246,7 @@ fn check(site: &str, s: &str, case: &str, rep: &mut Report) {
             }
         }
     }
-    if rep.samples.len() < 6 && class != "other" && rep.evaluations % 37 == 0 {
+    if rep.samples.is_empty() || (rep.samples.len() < 6 && class != "other" && rep.evaluations % 37 == 0) {
         rep.sample(J::obj(vec![("site", J::s(site)), ("string", J::s(s)), ("input", J::s(&text)), ("verdict", J::s("reads back; same structure as benign twin; a literal decodes to the string; executed output agrees"))]));
     }
 }
@@ -280,7 +280,7 @@ pub fn run(ctx: &Ctx, rep: &mut Report) {
     rep.exhaustive = Some(true);
     rep.extra.push(("exhaustive_bound".into(), J::s(format!("every string of length 1..{} over the 18-character alphabet at each of {} sites", max_len, ns))));
     // sampled length 3 (quick) and random up to 24
-    let n = ctx.pick(8000, 200_000);
+    let n = ctx.pick(8000, 1_500_000);
     par_cases(ctx, "random", n, rep, |i, rep| {
         let mut r = Rng::for_case(ctx.seed, "random", i);
         let site = SITES[r.usize(SITES.len())];
